@@ -946,10 +946,20 @@ def shrink_layout(chk, xvc, r, failing):
     return best
 
 
+def private_binary(chk, xvc):
+    """the forms of one case must run the SAME binary: other jobs rebuild /repo/target while a check runs (a commit
+    lands, a patch is applied transiently), the file disappears during the relink and changes afterwards.  The check
+    runs a private copy taken right after its own build."""
+    dst = os.path.join(chk.scratch, 'xvc-under-test')
+    shutil.copyfile(xvc, dst)
+    os.chmod(dst, 0o755)
+    return dst
+
+
 def run(chk: Check):
     quick = chk.tier == 'quick'
     model = chk.lean('XvcTargets', 'XvcTargets.Props', exe='targetsmodel', extra_modules=['XvcTargets.Model', 'XvcTargets.Lemmas'])
-    xvc = chk.build_xvc()
+    xvc = private_binary(chk, chk.build_xvc())
     chk.trusted_base += [
         'lib/c18.py: repository generator, cp -a copies, abstraction (independent replay of the JSON event stores, cache/workspace/storage walk), diff, attribution of touched objects to paths',
         'lib/xvcbin.py Sandbox; the concrete matcher `globMatch` of the model stands for fast_glob on the generated pattern shapes (literal, *, **/, trailing /**), validated by the tie',
@@ -1074,7 +1084,7 @@ def run(chk: Check):
 
 
 def replay(chk: Check, data):
-    xvc = chk.build_xvc()
+    xvc = private_binary(chk, chk.build_xvc())
     for i, f in enumerate(data.get('failures', [])):
         r = run_case(chk, xvc, f'replay{i}', f['case'])
         chk.evaluations += 1
